@@ -122,7 +122,7 @@ func c34(c *hx.Ctx) {
 	le := fk.Logger()
 	P := []peer.ID{"", fk.PeerID("p1"), fk.PeerID("p2"), fk.PeerID("p3")}
 	protos := []string{"", "p/a", "p/b", "p/ab"}
-	e := &emitter{c: c, keepP: float64(c.N) / 9200.0}
+	e := &emitter{c: c, keepP: float64(c.N) / 11000.0}
 
 	var streams []strm
 	for _, p := range append(append([]string{}, protos...), "bifrost/echo") {
@@ -242,10 +242,116 @@ func c34(c *hx.Ctx) {
 			}
 		}
 	}
+	// ---- api accept from RAW configuration strings: blank / padded / invalid / duplicate entries ----
+	{
+		p1, p2, p3 := P[1].String(), P[2].String(), P[3].String()
+		rawLists := [][]string{nil, {""}, {"", ""}, {" "}, {"\t"}, {"", p1}, {p1, ""}, {" ", p2, " "}, {p1, p1}, {"zzz"}, {p1, "zzz"}, {" " + p1}, {p1 + " "}, {p1}, {p2, p3}, {"\u00a0" + p1}}
+		rawLocals := []string{"", p1, " " + p1, " "}
+		for _, rl := range rawLists {
+			for _, ll := range rawLocals {
+				ctrl, cerr := stream_api_accept.NewController(le, &stream_api_accept.Config{LocalPeerId: ll, RemotePeerIds: rl, ProtocolId: "p/a"}, nil)
+				verr := (&stream_api_accept.Config{LocalPeerId: ll, RemotePeerIds: rl, ProtocolId: "p/a"}).Validate()
+				var tbl []string
+				seen := map[string]bool{}
+				for _, x := range rl {
+					if seen[x] {
+						continue
+					}
+					seen[x] = true
+					if id, derr := peer.IDB58Decode(x); derr != nil {
+						tbl = append(tbl, "("+hx.Str(x)+", None)")
+					} else {
+						tbl = append(tbl, "("+hx.Str(x)+", Some "+hx.Str(string(id))+")")
+					}
+				}
+				localID, lerr := peer.IDB58Decode(ll)
+				for _, sp := range []string{"p/a", "p/b"} {
+					for _, l := range P[:3] {
+						for _, r := range P {
+							s := strm{sp, l, r}
+							obs := 2
+							if cerr == nil {
+								res, pn := offer(ctrl, s)
+								obs = 0
+								if len(res) != 0 {
+									obs = 1
+								}
+								if pn {
+									obs = 3
+								}
+							}
+							desc := map[string]any{"handler": "accept-raw-config", "cfg_local": ll, "cfg_remote_peer_ids": rl, "stream": s.desc(), "constructor_error": fmt.Sprint(cerr), "validate_error": fmt.Sprint(verr), "outcome": obs}
+							// property: a config that NAMES remote peers serves only those peers
+							if obs == 1 && len(rl) != 0 {
+								listed := false
+								for _, x := range rl {
+									if id, derr := peer.IDB58Decode(strings.TrimSpace(x)); derr == nil && id == r {
+										listed = true
+									}
+								}
+								if !listed {
+									c.Failf("accept-takes-unlisted-remote", desc, "remote_peer_ids %q names peers, yet a stream from unlisted remote peer %s was offered", rl, r.String())
+								}
+							}
+							if obs == 1 && ll != "" {
+								if id, derr := peer.IDB58Decode(strings.TrimSpace(ll)); derr != nil || id != l {
+									c.Failf("accept-takes-foreign-local", desc, "local_peer_id %q is configured, yet a stream for local peer %s was offered", ll, l.String())
+								}
+							}
+							if obs == 3 {
+								c.Failf("accept-panic", desc, "HandleDirective panicked")
+							}
+							if (cerr == nil) != (verr == nil) {
+								c.Class("accept-validate-vs-constructor-differ")
+							}
+							// Coq case only when the local id is one the model can be given as bytes
+							if ll == "" || lerr == nil {
+								e.emit(hx.App("HAcceptRaw", hx.Str("p/a"), hx.Str(string(localID)), strList(rl), hx.List(tbl), s.term(), hx.Nat(obs)), desc, "accept-raw", obs == 1, fmt.Sprint("acceptraw", rl, ll, s))
+							} else {
+								c.Class("accept-raw-bad-local")
+								if cerr == nil {
+									c.Failf("accept-ctor-accepts-bad-local", desc, "constructor accepted local_peer_id %q", ll)
+								}
+							}
+						}
+					}
+				}
+			}
+		}
+	}
+	// ---- padded / blank / invalid peer-id strings in the other controllers' configs ----
+	for _, bad := range []string{" " + P[1].String(), P[1].String() + " ", "zzz", " ", "\t"} {
+		type ctor func() (hdl, error)
+		for name, mk := range map[string]ctor{
+			"echo": func() (hdl, error) {
+				return stream_echo.NewController(le, nil, &stream_echo.Config{PeerId: bad, ProtocolId: "p/a"})
+			},
+			"forwarding": func() (hdl, error) {
+				return stream_forwarding.NewController(le, nil, &stream_forwarding.Config{PeerId: bad, ProtocolId: "p/a", TargetMultiaddr: "/ip4/127.0.0.1/tcp/8080"})
+			},
+			"relay": func() (hdl, error) {
+				return stream_relay.NewController(le, nil, &stream_relay.Config{PeerId: bad, ProtocolId: "p/a", TargetPeerId: P[3].String()})
+			},
+		} {
+			h, err := mk()
+			c.Eval()
+			if err != nil {
+				c.Class(name + "-ctor-rejects")
+				continue
+			}
+			want, derr := peer.IDB58Decode(strings.TrimSpace(bad))
+			for _, s := range streams {
+				res, _ := offer(h, s)
+				if len(res) != 0 && (derr != nil || s.local != want) {
+					c.Failf(name+"-padded-peer-id", map[string]any{"handler": name, "cfg_peer_id": bad, "stream": s.desc()}, "peer_id %q was accepted by the constructor and the handler offered a stream for local peer %s", bad, s.local.String())
+				}
+			}
+		}
+	}
 	// ---- srpc server ----
 	info := controller.NewInfo("verif/srpc", semver.MustParse("0.0.1"), "verif")
 	protoSets := [][]string{nil, {"p/a"}, {"p/a", "p/b"}, {""}, {"p/ab", "p/ab"}}
-	peerStrSets := [][]string{nil, {P[1].String()}, {P[1].String(), P[2].String()}, {""}, {"not-a-peer-id"}, {P[2].String(), P[2].String()}}
+	peerStrSets := [][]string{nil, {P[1].String()}, {P[1].String(), P[2].String()}, {""}, {"not-a-peer-id"}, {P[2].String(), P[2].String()}, {" " + P[1].String()}, {"", P[1].String()}, {" "}}
 	for _, cps := range protoSets {
 		ids := make([]protocol.ID, len(cps))
 		for i := range cps {
